@@ -39,6 +39,7 @@ class TermCx:
         self.inline = inline
         self.memo = {}
         self.busy = set()
+        self.track_mut = True
 
     # ---- places / operands ----
     def operand(self, op):
@@ -123,6 +124,18 @@ class TermCx:
                 if x not in uniq:
                     uniq.append(x)
             t = uniq[0] if len(uniq) == 1 else ("phi", (self.fn.key, l), tuple(uniq))
+        muts = self.fn.mutations().get(l) if self.track_mut else None
+        if muts:
+            ops = []
+            for (bb, term, idx) in muts:
+                ci = callee_of(term)
+                nm = ci.get("name") if ci else "?"
+                if ci and (ci.get("trait") or "").endswith("::Iterator"):
+                    continue  # consuming an iterator is not an update of a collection
+                others = tuple(self.operand(a) for j, a in enumerate(term["args"]) if j != idx)
+                ops.append(("op", nm, others, (self.fn.key, bb)))
+            if ops:
+                t = ("mut", t, tuple(ops))
         self.busy.discard(l)
         self.memo[l] = t
         return t
@@ -294,7 +307,10 @@ def simple_wrapper(f):
                 break
             if t["k"] == "call":
                 ncalls += 1
-    if ncalls > 3:
+            for st in f.blocks[b].stmts:
+                if st["k"] == "assign" and st["rv"]["k"] == "agg" and st["rv"].get("agg") == "closure":
+                    ok = False
+    if ncalls > 6:
         ok = False
     _simple_cache[f.key] = ok
     return ok
@@ -362,7 +378,7 @@ def subterms(t):
                                         yield from subterms(z)
 
 
-_HEADS = {"vec", "arg", "const", "fnref", "field", "variant", "index", "cindex", "subslice", "proj", "loopvar", "updated",
+_HEADS = {"mut", "op", "vec", "arg", "const", "fnref", "field", "variant", "index", "cindex", "subslice", "proj", "loopvar", "updated",
           "uninit", "phi", "cast", "bin", "un", "len", "discr", "agg", "closure", "repeat", "unknown", "callind",
           "iter", "try", "residual", "ok_or", "map_err", "call", "some", "ok", "errval"}
 
@@ -448,6 +464,8 @@ def fmt(t, depth=0):
         return short(t[1])
     if h == "vec":
         return "vec![%s]" % ", ".join(f(x) for x in t[1])
+    if h == "mut":
+        return "%s{%s}" % (f(t[1]), "; ".join("%s(%s)" % (o[1], ", ".join(f(x) for x in o[2])) for o in t[2]))
     if h == "loopvar":
         return "loopvar_%d" % t[2]
     return h + "(…)"
